@@ -287,7 +287,7 @@ def main():
                 # part of this property's proof obligations
                 foreign = 0
                 for o in c['failed']:
-                    tprops = [t for t in (o.get('tag') or '').split('#')[0].split(',') if t]
+                    tprops = [t for t in (o.get('tag') or '').split('#')[0].split(',') if t] if '#' in (o.get('tag') or '') else []
                     is_known = o.get('label') and any(k.startswith('known:') and ('property=%s ' % prop) in k and ('unit=%s ' % uid) in k and ('label=%s ' % o['label']) in k + ' ' for k in known)
                     if (tprops and prop not in tprops and prop != 'C18') or is_known:
                         foreign += 1
@@ -296,7 +296,8 @@ def main():
             for o in c['failed']:
                 # a clause tagged with properties is that properties' obligation; untagged obligations (frames, safety,
                 # invariants, callee preconditions) belong to every property the unit serves
-                tprops = [t for t in (o.get('tag') or '').split('#')[0].split(',') if t]
+                # only *labelled* clauses (tag 'Cxx,Cyy#label': recorded findings) are scoped to the properties they name
+                tprops = [t for t in (o.get('tag') or '').split('#')[0].split(',') if t] if '#' in (o.get('tag') or '') else []
                 if tprops and prop not in tprops and prop != 'C18':
                     continue
                 srcref, ctext = src_of_line(cfile, o.get('line') or 0)
